@@ -1,7 +1,8 @@
 """C02 - dynamic tags on the legacy path (merchant_utils._resolve_dynamic_tags, used by the tuple loop of normalize_merchant and by apply_tag_rules):
 a static tag contributes itself (stripped, lower-cased); a {expression} tag contributes the lower-cased value of THAT expression text - the text
 between the braces, stripped, otherwise exactly as written (letter case matters inside regular expressions and string literals) - evaluated on the
-transaction; empty texts, empty values and expressions that fail contribute nothing; every tag of the list is processed."""
+transaction, WITH the supplemental sources the caller has (as the same tag in a .rules file is); empty texts, empty values and expressions that fail
+contribute nothing; every tag of the list is processed."""
 import ast
 
 import z3
@@ -45,6 +46,24 @@ def h_dynamic_tags(ctx):
         if I_.ctx.choose(2, 'evaluate.raises'):
             raise PyRaise('ExpressionError', (), 'evaluate')
         return I_.ctx.fresh('value', StrS)
+    ds = Obj(ctx.fresh('data_sources', ObjS), 'pydict')
+    has_ds_param = any(a.arg == 'data_sources' for a in fi.node.args.args + fi.node.args.kwonlyargs)
+    ctx.check('C02.dynamic_tag.takes_the_supplemental_sources_of_the_caller', has_ds_param, 'property')
+
+    def m_evaluate_transaction(I_, a, k, n):
+        # the one-call form: evaluate_transaction(text, transaction, data_sources=...)
+        t = strip(seen['raw'])
+        inner = z3.SubString(t, 1, z3.Length(t) - 2)
+        ctx.check('C02.dynamic_tag.expression_is_the_text_between_the_braces_as_written', to_z3(a[0], StrS) == strip(inner), 'property')
+        ctx.check('C02.dynamic_tag.evaluated_on_this_transaction', len(a) > 1 and isinstance(a[1], Obj) and a[1].expr is txn.expr, 'property')
+        got = k.get('data_sources', a[3] if len(a) > 3 else None)
+        ctx.check('C02.dynamic_tag.evaluated_with_the_supplemental_sources', isinstance(got, Obj) and got.expr is ds.expr, 'property')
+        if I_.ctx.choose(2, 'evaluate.raises'):
+            raise PyRaise('ExpressionError', (), 'evaluate_transaction')
+        if I_.ctx.choose(2, 'value.is_a_list'):
+            return SymSeq([I_.ctx.fresh('values', z3.SeqSort(StrS))])
+        return I_.ctx.fresh('value', StrS)
+    sp.models['expr_parser.evaluate_transaction'] = Func(m_evaluate_transaction)
     sp.models['expr_parser.TransactionContext.from_transaction'] = Func(m_ctx)
     sp.models['expr_parser.parse_expression'] = Func(m_parse)
     sp.models['expr_parser.TransactionEvaluator'] = Func(lambda I_, a, k, n: Obj(I_.fresh('evaluator', ObjS), 'Evaluator'))
@@ -81,7 +100,7 @@ def h_dynamic_tags(ctx):
         return orig_method(o, attr, args, kwargs, node)
     I.method = method
     try:
-        I.call_function(fi, [SymSeq([tags]), txn])
+        I.call_function(fi, [SymSeq([tags]), txn] + ([ds] if has_ds_param else []))
     except PyRaise as e:
         ctx.check('C02.dynamic_tags.raises_nothing', False, 'property', meta={'escaping': e.cls})
         return
